@@ -314,6 +314,20 @@ GENERIC_BASES = [("builtins.list", 1), ("builtins.set", 1), ("builtins.dict", 2)
                  ("typing.Callable", 2), ("builtins.type", 1)]
 
 
+def random_hier(rng):
+  """HIER with the inheritance among the user classes A..G re-drawn (acyclic: bases come from earlier classes of a
+  random order; 0-2 bases, `builtins.object` when none)."""
+  h = {k: list(v) for k, v in HIER.items()}
+  order = ["A", "B", "C", "D", "E", "F"]
+  rng.shuffle(order)
+  for i, c in enumerate(order):
+    k = rng.choice([0, 1, 1, 2]) if i else 0
+    bs = rng.sample(order[:i], min(k, i))
+    h[c] = bs or ["builtins.object"]
+  h["G"] = [rng.choice(order)]
+  return h
+
+
 class Gen:
   """Random pytd declarations.  Every class name is used either always as NamedType or always as
   ClassType inside one unit (mixing both for one name is the known-finding region c11-mixed-name-kinds)."""
@@ -1009,17 +1023,25 @@ def correspond(res, rng, tier):
 
   # 1) generated declarations
   n_units = 300 if tier == "quick" else 8000
-  deps = deps_unit(pytd, HIER)
-  deps_h = deps.Visit(vis.ExtractSuperClassesByName())
+  # the class hierarchy changes between blocks of cases (same class names, different inheritance), all in one process:
+  # nothing the optimiser computed for an earlier hierarchy may survive into a later one
+  hiers = [HIER] + [random_hier(rng) for _ in range(5 if tier == "quick" else 40)]
+  hdeps = []
+  for h in hiers:
+    dp = deps_unit(pytd, h)
+    hdeps.append((dp, dp.Visit(vis.ExtractSuperClassesByName())))
   cases = []
+  case_deps = []
   n_decl = 0
   for i in range(n_units):
+    deps, deps_h = hdeps[(i // 12) % len(hdeps)]
     o = gen_opts(rng)
     g = Gen(pytd, rng, rng.choice(["named", "cls", "per-name"]), extra_names=ABC_NAMES if o["use_abcs"] else ())
     u = g.unit(rng.choice([1, 2, 2, 3]))
     n_decl += len(u.constants) + len(u.functions) + len(u.classes) + len(u.aliases)
     cases.append(Case("generated", u, deps_h, o, Codec(pytd)))
-  for c in cases:
+    case_deps.append(deps)
+  for c, deps in zip(cases, case_deps):
     try:
       c.real = real_optimize(mods, c.unit, deps, c.opts)
     except Exception as e:  # pylint: disable=broad-except
@@ -1028,7 +1050,8 @@ def correspond(res, rng, tier):
   disagreements += d1
   # second run: the optimiser on its own output (model and code must also agree there)
   cases2 = []
-  for c in cases:
+  case2_deps = []
+  for c, deps in zip(cases, case_deps):
     if c.real is None:
       continue
     cd = Codec(pytd)
@@ -1036,9 +1059,10 @@ def correspond(res, rng, tier):
       cd.unit(c.real)
     except OutOfFragment:
       continue
-    c2 = Case("generated, second run", c.real, deps_h, c.opts, cd)
+    c2 = Case("generated, second run", c.real, c.deps_h, c.opts, cd)
     cases2.append(c2)
-  for c in cases2:
+    case2_deps.append(deps)
+  for c, deps in zip(cases2, case2_deps):
     try:
       c.real = real_optimize(mods, c.unit, deps, c.opts)
     except Exception as e:  # pylint: disable=broad-except
